@@ -259,6 +259,30 @@ func runC01(c *Ctx) {
 		}
 	}
 
+	// a per-player helper that does the sweep works for the function that loops over the players:
+	// the round boundary is where THAT function is called
+	{
+		climb := func(fs []*ssa.Function) []*ssa.Function {
+			seen := map[*ssa.Function]bool{}
+			var out []*ssa.Function
+			for _, f := range fs {
+				for i := 0; i < 3 && !token.IsExported(f.Name()); i++ {
+					cl := ix.Callers(f)
+					if len(cl) != 1 || cl[0].Pkg != f.Pkg || eg.MayEmit[f] {
+						break
+					}
+					f = cl[0]
+				}
+				if !seen[f] {
+					seen[f] = true
+					out = append(out, f)
+				}
+			}
+			return out
+		}
+		sweepers, resetters = climb(sweepers), climb(resetters)
+	}
+
 	// ---- boundary-pairing
 	if len(sweepers) == 0 || len(resetters) == 0 || eg.Trigger == nil {
 		c.undecided("boundary-pairing", "anchors", "-", fmt.Sprintf("wager sweeper (%d) / round-pot resetter (%d) not found", len(sweepers), len(resetters)))
